@@ -32,6 +32,7 @@ type Program struct {
 	SSAPkgs  map[string]*ssa.Package
 	Whole    bool // whole-program (dependencies from source too)
 	AllFuncs map[*ssa.Function]bool
+	All      []*packages.Package // every root package returned by the loader (AnyModule loads)
 }
 
 type Options struct {
@@ -40,6 +41,8 @@ type Options struct {
 	Whole   bool     // load dependencies from source as well
 	Only    []string // restrict patterns (default ./...)
 	NoSSA   bool
+	// AnyModule: the patterns name dependency packages; do not require module packages.
+	AnyModule bool
 }
 
 func env() []string {
@@ -89,6 +92,16 @@ func Load(o Options) (*Program, error) {
 	}
 	if len(o.Only) == 0 && len(p.Pkgs) < MinRepoPackages {
 		return nil, fmt.Errorf("only %d module packages loaded (floor %d)", len(p.Pkgs), MinRepoPackages)
+	}
+	p.All = pkgs
+	if o.AnyModule {
+		if len(pkgs) == 0 {
+			return nil, fmt.Errorf("no packages loaded for %v", pats)
+		}
+		for _, pk := range pkgs {
+			p.Fset = pk.Fset
+		}
+		return p, nil
 	}
 	if len(p.Pkgs) == 0 {
 		return nil, fmt.Errorf("no module packages loaded")
